@@ -4,6 +4,8 @@ import Vata.InclUp
 import Vata.InclDown
 import Vata.Compl
 import Vata.IsectModel
+import Vata.IsectBU
+import Vata.UnionModel
 import Vata.Candidate
 import Driver.NfaHist
 import Driver.TaHist
@@ -143,6 +145,18 @@ def checkUnion (args res : List String) (pre : Bool) : Except String (Findings Ã
     (B.states.filterMap (fun q => (mr.lookup q).map (fun s => s!"q{q}_2>{s}")))
   if !(got.all (fun x => expN.contains x) && expN.all (fun x => got.contains x)) then
     f := f ++ [s!"violation CreateUnionStringToStateMap names {got} expected {expN}"]
+  -- the L2 model of the two weak translators sharing one counter (`unionModel_maps_ok`, `unionModel_lang`): whatever the
+  -- visiting order, the numbers handed out are exactly cnt, cnt+1, â€¦ with cnt = 1 + the largest pre-filled value
+  let preL â† (if pre then getE (args[2]? >>= parseMap?) "bad pre-filled ml" else pure [])
+  let preR â† (if pre then getE (args[3]? >>= parseMap?) "bad pre-filled mr" else pure [])
+  let cnt := unionCnt preL preR
+  let freshL := (ml.filter (fun e => A.states.contains e.1 && (preL.lookup e.1).isNone)).map (Â·.2)
+  let freshR := (mr.filter (fun e => B.states.contains e.1 && (preR.lookup e.1).isNone)).map (Â·.2)
+  let fresh := freshL ++ freshR
+  if f.isEmpty && !((List.range fresh.length).all (fun i => fresh.contains (cnt + i))) then
+    f := f ++ [s!"mismatch union fresh numbers {fresh} are not {cnt}..{cnt + fresh.length - 1} (model of the shared counter)"]
+  if !(preL.all (fun e => ml.contains e) && preR.all (fun e => mr.contains e)) then
+    f := f ++ ["violation union changed an entry of a pre-filled translation map"]
   let pre' := if pre then "pre" else "fresh"
   pure (f, s!"{pre'}")
 
@@ -191,6 +205,13 @@ def checkIsect (args res : List String) (bu : Bool) : Except String (Findings Ã—
   if f.isEmpty then
     if bu then
       if !(rulesSub P.rules M.rules && subB P.final M.final) then f := f ++ ["mismatch isectbu-not-a-subproduct"]
+      -- the L2 model of the bottom-up product (`isectBU_lang`, `isectBURef_isSome`): the set of bottom-up reachable pairs
+      -- and the rules over it are determined by the operands, the numbering is not
+      match isectBURef A B with
+      | some (PM, mm) =>
+        if mm.length != m.length || (dedupRules PM.rules).length != (dedupRules P.rules).length then
+          f := f ++ [s!"mismatch isectBU-model sizes: model {mm.length} pairs / {(dedupRules PM.rules).length} rules, implementation {m.length} / {(dedupRules P.rules).length}"]
+      | none => f := f ++ ["mismatch isectBU-model returned none"]
     else
       if !(taEq P M) then f := f ++ [s!"mismatch isect-product model={showTA M}"]
       -- the L2 model of the work-list (`isectTD`, fresh numbers in discovery order): the discovered domain is determined
